@@ -50,7 +50,7 @@ func c26Graph(c *fw.Ctx, g [][]int, deep bool) {
 	// --- Tarjan
 	if n >= 2 {
 		orig := cloneGraph(g)
-		seen := make([]int, n)   // component id+1
+		seen := make([]int, n) // component id+1
 		var comps [][]int
 		bad := false
 		graph.Tarjan(g, func(vs []int, onStack container.BitSet) {
@@ -321,8 +321,8 @@ func randGraph(r *rand.Rand) [][]int {
 
 func init() {
 	fw.Register(&fw.Check{
-		ID: "C26",
-		Rule: "cases 0..15: all 65536 directed graphs on 4 vertices (self-loops included) in 16 slices, plus all graphs on 0..3 vertices in case 0; further cases: batches of random graphs (2-40 vertices, densities 0.02-0.5, DAGs in both orientations with multi-edges, general digraphs) and long chains/trees of depth up to 10^4; every graph is judged against naive reachability (SCC partition, reverse-topological callback order, closure cells, transposed edge multiset, longest path by DP). A graph is non-trivial when it has at least one edge; distinctness by adjacency text",
+		ID:          "C26",
+		Rule:        "cases 0..15: all 65536 directed graphs on 4 vertices (self-loops included) in 16 slices, plus all graphs on 0..3 vertices in case 0; further cases: batches of random graphs (2-40 vertices, densities 0.02-0.5, DAGs in both orientations with multi-edges, general digraphs) and long chains/trees of depth up to 10^4; every graph is judged against naive reachability (SCC partition, reverse-topological callback order, closure cells, transposed edge multiset, longest path by DP). A graph is non-trivial when it has at least one edge; distinctness by adjacency text",
 		Assumptions: []string{"naive DFS reachability and DP longest path are correct"},
 		Cases: func(tier string) int {
 			if tier == "thorough" {
